@@ -69,3 +69,8 @@ chk("C16", "fault_enumeration",
     "A transient write fault is injected at every write of a session and every persisted-byte count, followed by every continuation; TLC validates each observation against FaultObs!FaultSafe.",
     "Exhaustive over fault points of 8 (16) storage sessions incl. a plain stream target. " + TB,
     "recorded fault-point observations validated by TLC against a TLA+ relation", "DESIGN.md §3 C16")
+chk("C08", "model_checking",
+    "Conc.tla models the lock discipline (one action per critical-section boundary) and is model-checked for conflict freedom, linearizability, dedupe and termination; real executions are bound to it three ways: "
+    "race-detector stress runs, gate-driven exploration of lock-gate orders, and TLC validation of every recorded history (with hook-recorded linearization points) against ConcTrace.tla.",
+    "Model: 3 goroutines x <= 3 ops exhaustive. Real code: sampled schedules (race detector) + exhaustive gate orders of 6 small programs. " + TB + " Go race detector.",
+    "TLA+ lock-discipline model + history trace validation by TLC + race detector + gate-driven schedule exploration", "DESIGN.md §3 C08")
